@@ -2,3 +2,5 @@
 import AbraModel.Int64
 import AbraModel.Drv.Util
 import AbraModel.Drv.I64
+import AbraModel.Arena
+import AbraModel.Drv.Arena
